@@ -39,4 +39,18 @@ def run_mod(ctx, thorough, search, prop):
         "input_distribution": {k: meta[k] for k in ("fixtures", "attr_modules", "body_modules", "attr_invalid_discarded", "outside_modelled_universe", "walrus_errors", "walrus_panics", "attr_distribution")},
         "exhaustive": False,
     }
+    if prop in ("C06", "C02"):
+        # per-operator sweep of the GC pass: each operator instance is the ONLY user of the entities its immediates name
+        og = os.path.join(out, "opgc")
+        rc2, o2, _ = core.sh([core.vh(), "opgc", og, "thorough" if thorough else "quick"], timeout=1500)
+        if rc2 != 0:
+            dis.append({"error": "per-operator gc sweep failed", "out": o2[-600:]})
+        else:
+            m2 = json.load(open(os.path.join(og, "meta.json")))
+            for v in m2.get("oracle_violations", []):
+                if prop in v.get("props", "").split():
+                    ov.append({"class": v["class"], "what": v["what"], "input": {"module_hex": v.get("input"), "operator": v.get("operator")}, "observed": (v.get("observed") or "")[:2000],
+                               "replay_cmd": "walrus::Module::from_buffer(<module_hex>), passes::gc::run, emit_wasm, validate the output and compare the body of export f1"})
+            cov["per_operator_gc_sweep"] = {k: m2.get(k) for k in ("operator_instances", "distinct_operators", "instances_with_immediates")}
+            cov["rule"] += " || per-operator gc sweep: every operator of wasmparser's list the validator accepts x boundary immediates, in live position in a module where ONLY the test function is exported (so each entity an immediate names is kept alive by that operator alone): parse, gc, emit must not panic, the output must validate and carry the same operators"
     return {"disagreements": dis, "oracle_violations": ov, "coverage": cov}
